@@ -76,9 +76,9 @@ pub fn hash_delta<S: Src, const SIDE: u8, const KG: u8>(s: &mut S) {
     vnote!("fen={} move={:?} after={} stored={:#x} scratch={:#x}", b0.as_fen(), mv, b.as_fen(), b.zobrist_hash(), b.raw().zobrist_hash());
     vassert!("frame: no square outside {src, dst, e.p. victim, rook from/to} changes", frame);
     vassert!("hash after = hash before ^ (keys of everything that changed)", b.zobrist_hash() == b0.zobrist_hash() ^ delta_ref(&p, &q, &sqs));
-    vcover!("castling", m.kind == K_OO || m.kind == K_OOO);
-    vcover!("capture that removes a castling right", m.kind == K_SIMPLE && p.castling != q.castling && p.cells[m.dst as usize] != 0);
-    vcover!("en passant", m.kind == K_EP);
+    vcover!("a move that changes the castling rights (king / rook / castling / promotion groups)", !(KG == KG_KING || KG == KG_ROOK || KG == KG_CASTLING || KG == KG_PSPECIAL) || p.castling != q.castling);
+    vcover!("a capture (groups that can capture)", KG == KG_CASTLING || KG == KG_NULL || KG == KG_EP || p.cells[m.dst as usize] != 0);
+    vcover!("the e.p. mark changes", p.ep != q.ep);
 }
 
 /// natively checkable form: stored hash after the move equals the from-scratch hash
